@@ -73,6 +73,28 @@ def run(tier):
     for e in events:
         if e.get("panic"):
             run.violation({"kind": "panic", "a2": e["a2"]}, {"cmd": "igamc-trace", "chain": chains[e["a2"]]})
+    # a platform whose int has 32 bits (GOARCH=386 build of the driver): the library shapes and a stride of the others again
+    try:
+        hz386 = vlib.go_build(goarch="386")
+        ok386 = vlib.can_run_386(hz386)
+    except vlib.InfraError:
+        ok386 = False
+    run.extra["int32_platform_pass"] = bool(ok386)
+    if ok386:
+        sub = [j for j in jobs if j["a2"] <= 64 or j["a2"] in LIB_SHAPES or j["a2"] % 7 == 0]
+        with open(jp, "w") as fh:
+            json.dump({"chains": sub}, fh)
+        op3 = os.path.join(tmp, "o386.ndjson")
+        p3 = vlib.run_bin(hz386, ["igamc-trace", jp, op3], timeout=1200)
+        if p3.returncode != 0:
+            run.violation({"kind": "crash", "arch": "386"}, {"cmd": "igamc-trace", "arch": "386", "stderr_head": "\n".join((p3.stderr or "").splitlines()[:12])[:2000]})
+        else:
+            ev3 = vlib.read_ndjson(op3)
+            for e in ev3:
+                e["arch"] = "386"
+                if e.get("panic"):
+                    run.violation({"kind": "panic", "a2": e["a2"], "arch": "386"}, {"cmd": "igamc-trace", "arch": "386", "chain": chains[e["a2"]]})
+            events += ev3
     events = [e for e in events if not e.get("panic")]
     # heavy shapes first so that the splits are balanced
     events.sort(key=lambda e: -e["a2"])
@@ -82,10 +104,17 @@ def run(tier):
     run.evaluations += npts
     regions = {"nonpositive": 0, "series": 0, "fraction": 0, "underflow": 0}
     nontriv = 0
+    notnum = 0
     for e in events:
         a = Decimal(e["a2"]) / 2
         for x, q in zip(e["xs"], e["qs"]):
-            dx, dq = Decimal(x), Decimal(q)
+            try:
+                dx, dq = Decimal(x), Decimal(q)
+                if not (dx.is_finite() and dq.is_finite()):
+                    raise ValueError
+            except Exception:
+                notnum += 1      # NaN / Inf returned by the function under test: TLC rejects the chain; only the bookkeeping skips it
+                continue
             if dx <= 0:
                 regions["nonpositive"] += 1
             elif dx < 1 or dx < a:
@@ -101,11 +130,12 @@ def run(tier):
             raise vlib.InfraError("vacuity: no grid point in region " + k)
     run.nontrivial_count += nontriv
     run.extra["points_per_region"] = regions
+    run.extra["non_numeric_results"] = notnum
     run.extra["shapes"] = len(shapes)
     run.sample({"chain_event": {"a2": events[-3]["a2"], "xs": events[-3]["xs"][20:24], "qs": events[-3]["qs"][20:24]}})
     for e in rej:
         # locate the first offending point for the replay file
-        run.violation({"kind": "igamc", "a2": e["a2"]}, {"cmd": "igamc-trace", "event": e, "why": "TraceIgamc.tla rejects the chain (accuracy 1e-12 + 1e-14 a, range, exact 1 at x <= 0, or monotonicity)"})
+        run.violation({"kind": "igamc", "a2": e["a2"], "arch": e.get("arch", "amd64")}, {"cmd": "igamc-trace", "arch": e.get("arch", "amd64"), "event": e, "why": "TraceIgamc.tla rejects the chain (accuracy 1e-12 + 1e-14 a, range, exact 1 at x <= 0, or monotonicity)"})
     run.rule = ("shapes 2a: every value the library can produce plus a 1-in-32 stride over 1..10000 and all of 1..64 (thorough: all 10000) x a chain of 140 arguments: "
                 "-1, 0, 1e-300 .. 1e-4 (one per few decades), around x = 1 and x = a down to one ulp, a + t sqrt a for t = -8..40 step 1/2, 2a..10a, a+690..a+745, 20a+200; "
                 "non-trivial point = 1e-9 < Q < 1 - 1e-9 (counted)")
